@@ -472,3 +472,53 @@ Proof.
   intros HI input base sbase Hu Hb Hk. apply agree_good_shape.
   exact (proj1 (statement_all_model dbg idna HI input base sbase Hu Hb Hk)).
 Qed.
+
+(* ================= the classes of Known_C01 are inhabited by real divergences ================= *)
+(* the identity as the domain-to-ASCII oracle: all witnesses are ASCII *)
+Definition id_idna (x : list N) : option (list N) := Some x.
+Definition sides_differ (base : option url) (sbase : option spec_url) (input : list N) : Prop :=
+  ~ statement_shape true spec_host_serializer
+      (parse_url true (host_parse id_idna) host_parse_opaque host_display None base input)
+      (spec_basic_url_parse (spec_host_parser id_idna) input sbase).
+
+Definition wit_k1 : list N := [102;105;108;101;58;47;47;47;67;124].          (* file:///C|   : file:///C| vs file:///C: *)
+Definition wit_k2 : list N := [110;58;47;67;124;47;46;46].                    (* n:/C|/..     : n:/C|/ vs n:/ *)
+Definition wit_k3 : list N := [110;58;47;47;120;46;121;58;56;92].             (* n://x.y:8\   : accepted vs failure *)
+Definition wit_k4 : list N := [98;108;111;98;58;47;47;58;64;47].              (* blob://:@/   : accepted vs failure *)
+
+Theorem known_classes_refuted :
+  (known_c01 None wit_k1 = 1 /\ sides_differ None None wit_k1)
+  /\ (known_c01 None wit_k2 = 2 /\ sides_differ None None wit_k2)
+  /\ (known_c01 None wit_k3 = 3 /\ sides_differ None None wit_k3)
+  /\ (known_c01 None wit_k4 = 4 /\ sides_differ None None wit_k4).
+Proof.
+  repeat split; try (vm_compute; reflexivity); unfold sides_differ; vm_compute; intros H; try exact H; try discriminate H.
+Qed.
+
+(* class 2 through the base: "../y" against n:/C:/x  (n:/C:/y vs n:/y) *)
+Definition wit_k2_base : list N := [110;58;47;67;58;47;120].                  (* n:/C:/x *)
+Definition wit_k2_ref : list N := [46;46;47;121].                             (* ../y *)
+Theorem known_class2_base_refuted :
+  match parse_url true (host_parse id_idna) host_parse_opaque host_display None None wit_k2_base,
+        spec_basic_url_parse (spec_host_parser id_idna) wit_k2_base None with
+  | POk b, BDone sb => known_c01 (Some b) wit_k2_ref = 2 /\ known_c01 None wit_k2_base = 0
+                       /\ sides_differ (Some b) (Some sb) wit_k2_ref
+  | _, _ => False
+  end.
+Proof.
+  vm_compute. split; [reflexivity|]. split; [reflexivity|]. intros H; discriminate H.
+Qed.
+
+(* inputs of the former broad classes that the exact classes leave (and on which the sides agree by
+   statement_all): ':@' in a special URL and inside credentials, a drive-letter-shaped segment that no ".."
+   meets, a backslash in the path / query of a non-special URL *)
+Definition nar_1 : list N := [104;116;116;112;58;47;47;117;58;64;104;47].            (* http://u:@h/ *)
+Definition nar_2 : list N := [110;58;47;47;117;58;64;104;47;58;64].                  (* n://u:@h/:@ *)
+Definition nar_3 : list N := [110;58;47;47;104;47;67;58;47;120;47;46;46].            (* n://h/C:/x/.. *)
+Definition nar_4 : list N := [110;58;47;47;104;58;56;47;97;92;98;63;92].             (* n://h:8/a\b?\ *)
+Theorem known_narrowed :
+  (known_c01_broad None nar_1 = 4 /\ known_c01 None nar_1 = 0)
+  /\ (known_c01_broad None nar_2 = 4 /\ known_c01 None nar_2 = 0)
+  /\ (known_c01_broad None nar_3 = 2 /\ known_c01 None nar_3 = 0)
+  /\ (known_c01_broad None nar_4 = 3 /\ known_c01 None nar_4 = 0).
+Proof. vm_compute. repeat split. Qed.
